@@ -1,5 +1,1052 @@
 package c03
 
-import "hv/fw"
+// Seeded, type-directed generator of small well-typed programs (DESIGN.md §3 C03 accept side (b)).
+// It emits marked source (hv/mutate): every expression it places at a typed position is wrapped
+// in the marker of that position, and every `let tN = …` carries the static type the rules assign
+// to its initialiser, so the same text serves the accept oracle, the type oracle and the mutators.
+//
+// Discipline that keeps every program well-typed and every marked site surely breakable:
+//   - every infix/prefix/cast expression is parenthesised, receivers of member calls are
+//     identifiers or parenthesised (a mutation can never re-associate an expression);
+//   - `none`, `[]` and null-typed expressions only occur where an annotation fixes the type;
+//   - no statement follows a return/break/continue in its block; loops always contain a break
+//     (the typing of non-terminating loops is not relied upon);
+//   - let names (tN), variables, functions and catch identifiers are unique per program.
 
-func genCases(tier string, seed uint64) []fw.Case { return nil }
+import (
+	"fmt"
+	"strings"
+
+	"hv/fw"
+	"hv/mutate"
+)
+
+type gvar struct {
+	name string
+	t    *mutate.Ty
+}
+
+type gfn struct {
+	name   string
+	params []gvar
+	ret    *mutate.Ty
+}
+
+// genFeat are generator features that a known finding can poison.
+type genFeat struct {
+	closures      bool // closure literals at all
+	returnAfterCl bool // `return` statements after a closure literal in the same function (#7: base rejected)
+	fnTypeParams  bool // function-typed parameters with parameters (#8: base rejected)
+	fnLists       bool // list literals with two function values (#48: base rejected)
+	libModule     bool
+}
+
+type gen struct {
+	r       *fw.Rng
+	feat    genFeat
+	tags    map[string]bool // whole-program poison tags actually used
+	nLet    int
+	nVar    int
+	nClo    int
+	fns     []*gfn
+	aliases []gvar
+	globals []gvar
+	scopes  [][]gvar
+	ret     *mutate.Ty
+	loop    int  // loop depth inside the current function or closure
+	clo     int  // closure nesting depth
+	cloLoop bool // the current closure was created inside a loop
+	afterCl bool // a closure literal was emitted earlier in the current top-level function
+	budget  int
+}
+
+var (
+	tInt, tFloat, tBool, tStr = mutate.Int, mutate.Float, mutate.Bool, mutate.Str
+	fieldNames                = []string{"a", "b", "c", "id", "name", "x", "y", "val"}
+	strPool                   = []string{"", "a", "abc", "hello world", "x y", "Z", "ä"}
+)
+
+func (g *gen) ty(depth int) *mutate.Ty {
+	n := g.r.Intn(100)
+	switch {
+	case n < 32:
+		return tInt
+	case n < 50:
+		return tStr
+	case n < 64:
+		return tBool
+	case n < 76:
+		return tFloat
+	}
+	if depth <= 0 {
+		return tInt
+	}
+	switch {
+	case n < 86:
+		return mutate.ListOf(g.ty(depth - 1))
+	case n < 92:
+		return mutate.OptOf(g.scalarOrList(depth - 1))
+	default:
+		k := 1 + g.r.Intn(3)
+		var fs []mutate.Field
+		used := map[string]bool{}
+		for len(fs) < k {
+			nm := fw.Pick(g.r, fieldNames)
+			if used[nm] {
+				continue
+			}
+			used[nm] = true
+			fs = append(fs, mutate.Field{Name: nm, T: g.ty(depth - 1)})
+		}
+		return mutate.ObjOf(fs...)
+	}
+}
+
+func (g *gen) scalarOrList(depth int) *mutate.Ty {
+	t := g.ty(depth)
+	if t.K == mutate.KOpt {
+		return tInt
+	}
+	return t
+}
+
+func mk(kind, attr, text string) string {
+	if attr == "" {
+		return "«" + kind + "|" + text + "»"
+	}
+	return "«" + kind + ":" + attr + "|" + text + "»"
+}
+
+func (g *gen) push()             { g.scopes = append(g.scopes, nil) }
+func (g *gen) pop()              { g.scopes = g.scopes[:len(g.scopes)-1] }
+func (g *gen) declare(v gvar)    { g.scopes[len(g.scopes)-1] = append(g.scopes[len(g.scopes)-1], v) }
+func (g *gen) fresh(p string) string { g.nVar++; return fmt.Sprintf("%s%d", p, g.nVar) }
+
+// varsOf returns visible variables of exactly type t (locals first, then globals).
+func (g *gen) varsOf(t *mutate.Ty) []gvar {
+	var out []gvar
+	ts := t.String()
+	for i := len(g.scopes) - 1; i >= 0; i-- {
+		for _, v := range g.scopes[i] {
+			if v.t.String() == ts {
+				out = append(out, v)
+			}
+		}
+	}
+	for _, v := range g.globals {
+		if v.t.String() == ts {
+			out = append(out, v)
+		}
+	}
+	return out
+}
+
+// varsWhere returns visible local variables whose type satisfies pred.
+func (g *gen) varsWhere(pred func(*mutate.Ty) bool) []gvar {
+	var out []gvar
+	for i := len(g.scopes) - 1; i >= 0; i-- {
+		for _, v := range g.scopes[i] {
+			if pred(v.t) {
+				out = append(out, v)
+			}
+		}
+	}
+	return out
+}
+
+func (g *gen) useVar(v gvar) string { return mk("id", "var", v.name) }
+
+// tySrc renders a type annotation, sometimes through an alias.
+func (g *gen) tySrc(t *mutate.Ty) string {
+	for _, a := range g.aliases {
+		if a.t.String() == t.String() && g.r.Chance(2, 3) {
+			return mk("id", "type", a.name)
+		}
+	}
+	return t.Source()
+}
+
+// ---------------------------------------------------------------------------------------------
+// Expressions
+// ---------------------------------------------------------------------------------------------
+
+func (g *gen) lit(t *mutate.Ty, d int) string {
+	switch t.K {
+	case mutate.KInt:
+		return fmt.Sprint(g.r.Intn(100))
+	case mutate.KFloat:
+		return []string{"0.5", "1.5", "2f", "10.25", "3.0"}[g.r.Intn(5)]
+	case mutate.KBool:
+		return []string{"true", "false", "on", "off"}[g.r.Intn(4)]
+	case mutate.KStr:
+		return `"` + fw.Pick(g.r, strPool) + `"`
+	case mutate.KRange:
+		lo := g.r.Intn(5)
+		if g.r.Bool() {
+			return fmt.Sprintf("%d..%d", lo, lo+1+g.r.Intn(5))
+		}
+		return fmt.Sprintf("%d..=%d", lo, lo+g.r.Intn(5))
+	case mutate.KList:
+		n := 1 + g.r.Intn(3)
+		parts := make([]string, n)
+		for i := range parts {
+			e := g.expr(t.Elem, d-1)
+			if i > 0 {
+				e = mk("el", t.Elem.String(), e)
+			}
+			parts[i] = e
+		}
+		return "[" + strings.Join(parts, ", ") + "]"
+	case mutate.KOpt:
+		return "?" + g.exprNoPrefix(t.Elem, d-1)
+	case mutate.KObj:
+		idx := make([]int, len(t.Fields))
+		for i := range idx {
+			idx[i] = i
+		}
+		for i := len(idx) - 1; i > 0; i-- {
+			j := g.r.Intn(i + 1)
+			idx[i], idx[j] = idx[j], idx[i]
+		}
+		parts := make([]string, len(idx))
+		for k, i := range idx {
+			parts[k] = t.Fields[i].Name + ": " + g.expr(t.Fields[i].T, d-1)
+		}
+		return "new { " + strings.Join(parts, ", ") + " }"
+	case mutate.KFn:
+		return g.closure(t)
+	}
+	panic("gen: no literal for " + t.String())
+}
+
+// exprNoPrefix: an expression that does not start with a prefix operator (operand of `?`).
+func (g *gen) exprNoPrefix(t *mutate.Ty, d int) string {
+	e := g.expr(t, d)
+	if strings.HasPrefix(e, "?") || strings.HasPrefix(e, "-") || strings.HasPrefix(e, "!") {
+		return "(" + e + ")"
+	}
+	return e
+}
+
+func (g *gen) atom(t *mutate.Ty) string {
+	if vs := g.varsOf(t); len(vs) > 0 && g.r.Chance(3, 5) {
+		return g.useVar(fw.Pick(g.r, vs))
+	}
+	return g.lit(t, 0)
+}
+
+// recv makes an expression usable as the receiver of a member access.
+func (g *gen) recv(t *mutate.Ty, d int) string {
+	if vs := g.varsOf(t); len(vs) > 0 && g.r.Chance(2, 3) {
+		return g.useVar(fw.Pick(g.r, vs))
+	}
+	return "(" + g.expr(t, d) + ")"
+}
+
+func (g *gen) infix(t *mutate.Ty, ops []string, d int) string {
+	op := fw.Pick(g.r, ops)
+	return "(" + mk("opd", t.String(), g.exprNoPrefix(t, d-1)) + " " + mk("bop", t.String(), op) + " " + mk("opd", t.String(), g.exprNoPrefix(t, d-1)) + ")"
+}
+
+func (g *gen) member(recv, name string) string { return recv + "." + mk("id", "member", name) }
+
+func (g *gen) call(f *gfn, d int) string {
+	args := make([]string, len(f.params))
+	for i, p := range f.params {
+		args[i] = mk("arg", p.t.String(), g.argExpr(p.t, d-1))
+	}
+	return mk("id", "fn", f.name) + "(" + mk("args", fmt.Sprint(len(args)), strings.Join(args, ", ")) + ")"
+}
+
+// argExpr: expressions in annotated positions may also be `none` (the position fixes the type).
+func (g *gen) argExpr(t *mutate.Ty, d int) string {
+	if t.K == mutate.KOpt && g.r.Chance(1, 4) {
+		return "none"
+	}
+	return g.expr(t, d)
+}
+
+func (g *gen) fnsReturning(t *mutate.Ty) []*gfn {
+	var out []*gfn
+	for _, f := range g.fns {
+		if f.ret.String() == t.String() {
+			out = append(out, f)
+		}
+	}
+	return out
+}
+
+func (g *gen) expr(t *mutate.Ty, d int) string {
+	g.budget--
+	if d <= 0 || g.budget <= 0 {
+		return g.atom(t)
+	}
+	if t.K == mutate.KFn {
+		if vs := g.varsOf(t); len(vs) > 0 && g.r.Bool() {
+			return g.useVar(fw.Pick(g.r, vs))
+		}
+		return g.closure(t)
+	}
+	// constructs available at every type
+	switch g.r.Intn(14) {
+	case 0:
+		c := mk("cond", "", g.expr(tBool, d-1))
+		return "if " + c + " { " + mk("br", t.String(), g.expr(t, d-1)) + " } " + mk("els", "", "else { "+mk("br", t.String(), g.expr(t, d-1))+" }")
+	case 1:
+		return g.matchExpr(t, d)
+	case 2:
+		if fs := g.fnsReturning(t); len(fs) > 0 {
+			return g.call(fw.Pick(g.r, fs), d)
+		}
+	case 3:
+		g.push()
+		n := g.fresh("b")
+		it := g.ty(0)
+		s := "{ let " + n + " = " + g.expr(it, d-1) + "; "
+		g.declare(gvar{n, it})
+		s += g.expr(t, d-1) + " }"
+		g.pop()
+		return s
+	case 4:
+		en := g.fresh("e")
+		s := "try { " + mk("br", t.String(), g.expr(t, d-1)) + " } catch " + en + " { "
+		g.push()
+		g.declare(gvar{en, mutate.ObjOf(mutate.Field{Name: "message", T: tStr}, mutate.Field{Name: "line", T: tInt}, mutate.Field{Name: "column", T: tInt}, mutate.Field{Name: "filename", T: tStr})})
+		s += mk("br", t.String(), g.expr(t, d-1)) + " }"
+		g.pop()
+		return s
+	case 5:
+		// element of a list variable / field of an object variable / unwrap of an option variable
+		if vs := g.varsOf(mutate.ListOf(t)); len(vs) > 0 {
+			return g.useVar(fw.Pick(g.r, vs)) + "[" + mk("idx", "int", g.expr(tInt, d-1)) + "]"
+		}
+		if vs := g.varsOf(mutate.OptOf(t)); len(vs) > 0 {
+			v := g.useVar(fw.Pick(g.r, vs))
+			if g.r.Bool() {
+				return g.member(v, "unwrap") + "()"
+			}
+			return g.member(v, "unwrap_or") + "(" + mk("args", "1", mk("arg", t.String(), g.expr(t, d-1))) + ")"
+		}
+		objs := g.varsWhere(func(o *mutate.Ty) bool {
+			if o.K != mutate.KObj {
+				return false
+			}
+			for _, f := range o.Fields {
+				if f.T.String() == t.String() {
+					return true
+				}
+			}
+			return false
+		})
+		if len(objs) > 0 {
+			o := fw.Pick(g.r, objs)
+			for _, f := range o.t.Fields {
+				if f.T.String() == t.String() {
+					return g.useVar(o) + "." + mk("id", "field", f.Name)
+				}
+			}
+		}
+	case 6:
+		// call of a closure variable returning t
+		cl := g.varsWhere(func(c *mutate.Ty) bool { return c.K == mutate.KFn && c.Ret.String() == t.String() })
+		if len(cl) > 0 {
+			c := fw.Pick(g.r, cl)
+			args := make([]string, len(c.t.Fields))
+			for i, p := range c.t.Fields {
+				args[i] = mk("arg", p.T.String(), g.argExpr(p.T, d-1))
+			}
+			return g.useVar(c) + "(" + mk("args", fmt.Sprint(len(args)), strings.Join(args, ", ")) + ")"
+		}
+	}
+	switch t.K {
+	case mutate.KInt:
+		switch g.r.Intn(10) {
+		case 0, 1, 2:
+			return g.infix(tInt, []string{"+", "-", "*", "/", "%", "**", "<<", ">>", "|", "&", "^"}, d)
+		case 3:
+			return "(-" + mk("neg", "int", g.exprNoPrefix(tInt, d-1)) + ")"
+		case 4:
+			if g.r.Bool() {
+				return g.member(g.recv(tStr, d-1), "len") + "(" + mk("args", "0", "") + ")"
+			}
+			return g.member(g.recv(mutate.ListOf(g.ty(0)), d-1), "len") + "()"
+		case 5:
+			src := []*mutate.Ty{tFloat, tBool}[g.r.Intn(2)]
+			return "(" + g.expr(src, d-1) + " as int)"
+		case 6:
+			return g.member(g.recv(tFloat, d-1), []string{"round", "trunc"}[g.r.Intn(2)]) + "()"
+		case 7:
+			return g.member(g.recv(tStr, d-1), []string{"parse_int", "len"}[g.r.Intn(2)]) + "()"
+		case 8:
+			return g.member(g.recv(tStr, d-1), "compare_lev") + "(" + mk("args", "1", mk("arg", "str", g.expr(tStr, d-1))) + ")"
+		}
+	case mutate.KFloat:
+		switch g.r.Intn(6) {
+		case 0, 1, 2:
+			return g.infix(tFloat, []string{"+", "-", "*", "/", "**"}, d)
+		case 3:
+			return "(-" + mk("neg", "float", g.exprNoPrefix(tFloat, d-1)) + ")"
+		case 4:
+			return "(" + g.expr(tInt, d-1) + " as float)"
+		}
+	case mutate.KBool:
+		switch g.r.Intn(10) {
+		case 0, 1:
+			return g.infix(tInt, []string{"==", "!=", "<", ">", "<=", ">="}, d)
+		case 2:
+			return g.infix(tFloat, []string{"==", "!=", "<", ">", "<=", ">="}, d)
+		case 3:
+			return g.infix(tStr, []string{"==", "!="}, d)
+		case 4, 5:
+			return g.infix(tBool, []string{"&&", "||", "|", "&", "^", "==", "!="}, d)
+		case 6:
+			return "(!" + mk("not", "bool", g.exprNoPrefix(tBool, d-1)) + ")"
+		case 7:
+			et := g.ty(0)
+			return g.member(g.recv(mutate.ListOf(et), d-1), "contains") + "(" + mk("args", "1", mk("arg", et.String(), g.expr(et, d-1))) + ")"
+		case 8:
+			if g.r.Bool() {
+				return g.member(g.recv(tStr, d-1), []string{"contains", "starts_with"}[g.r.Intn(2)]) + "(" + mk("arg", "str", g.expr(tStr, d-1)) + ")"
+			}
+			return g.member(g.recv(mutate.OptOf(g.ty(0)), d-1), []string{"is_some", "is_none"}[g.r.Intn(2)]) + "()"
+		case 9:
+			ct := g.ty(1)
+			return g.infix(ct, []string{"==", "!="}, d)
+		}
+	case mutate.KStr:
+		switch g.r.Intn(9) {
+		case 0, 1:
+			return g.infix(tStr, []string{"+"}, d)
+		case 2:
+			src := []*mutate.Ty{tInt, tFloat, tBool}[g.r.Intn(3)]
+			return g.member(g.recv(src, d-1), "to_string") + "()"
+		case 3:
+			return g.member(g.recv(tStr, d-1), []string{"to_upper", "to_lower"}[g.r.Intn(2)]) + "()"
+		case 4:
+			return g.member(g.recv(tStr, d-1), "repeat") + "(" + mk("args", "1", mk("arg", "int", g.expr(tInt, d-1))) + ")"
+		case 5:
+			return g.member(g.recv(tStr, d-1), "replace") + "(" + mk("args", "2", mk("arg", "str", g.expr(tStr, d-1))+", "+mk("arg", "str", g.expr(tStr, d-1))) + ")"
+		case 6:
+			return g.member(g.recv(mutate.ListOf(tStr), d-1), "join") + "(" + mk("arg", "str", g.expr(tStr, d-1)) + ")"
+		case 7:
+			return g.recv(tStr, d-1) + "[" + mk("idx", "int", g.expr(tInt, d-1)) + "]"
+		}
+	case mutate.KList:
+		if t.Elem.K == mutate.KStr && g.r.Chance(1, 4) {
+			return g.member(g.recv(tStr, d-1), "split") + "(" + mk("arg", "str", g.expr(tStr, d-1)) + ")"
+		}
+	case mutate.KOpt:
+		if vs := g.varsOf(mutate.ListOf(t.Elem)); len(vs) > 0 && g.r.Chance(1, 3) {
+			return g.member(g.useVar(fw.Pick(g.r, vs)), []string{"pop", "last", "pop_front"}[g.r.Intn(3)]) + "()"
+		}
+	case mutate.KRange:
+		if g.r.Chance(1, 3) {
+			return g.member(g.recv(tInt, d-1), "to_range") + "()"
+		}
+	}
+	if g.r.Chance(1, 2) {
+		return g.atom(t)
+	}
+	return g.lit(t, d)
+}
+
+func (g *gen) matchExpr(t *mutate.Ty, d int) string {
+	ct := []*mutate.Ty{tInt, tStr, tBool}[g.r.Intn(3)]
+	var pats []string
+	switch ct.K {
+	case mutate.KInt:
+		pats = []string{"0", "1", "2 | 3", "-1", "42"}
+	case mutate.KStr:
+		pats = []string{`"a"`, `"b" | "c"`, `""`}
+	default:
+		pats = []string{"true"}
+	}
+	n := 1 + g.r.Intn(len(pats))
+	s := "match " + g.expr(ct, d-1) + " { "
+	for i := 0; i < n; i++ {
+		s += pats[i] + " => " + mk("br", t.String(), g.expr(t, d-1)) + ", "
+	}
+	s += mk("dflt", "", "_ => "+mk("br", t.String(), g.expr(t, d-1))+",") + " }"
+	return s
+}
+
+// closure emits a function literal of type t (its parameters get the names of t).
+func (g *gen) closure(t *mutate.Ty) string {
+	saveRet, saveLoop, saveCloLoop := g.ret, g.loop, g.cloLoop
+	g.cloLoop = g.loop > 0 || g.cloLoop
+	g.ret, g.loop = t.Ret, 0
+	g.afterCl = false // inside the literal the analyzer's current function is this closure
+	g.clo++
+	g.push()
+	params := make([]string, len(t.Fields))
+	for i, p := range t.Fields {
+		params[i] = p.Name + ": " + p.T.Source()
+		if i == 0 {
+			params[i] = mk("dup", "param", params[i])
+		}
+		g.declare(gvar{p.Name, p.T})
+	}
+	sig := "fn(" + strings.Join(params, ", ") + ")"
+	if t.Ret.K != mutate.KNull || g.r.Chance(1, 4) {
+		sig += " -> " + t.Ret.Source()
+	}
+	body := g.body(1 + g.r.Intn(2))
+	g.pop()
+	g.clo--
+	g.ret, g.loop, g.cloLoop = saveRet, saveLoop, saveCloLoop
+	g.afterCl = true
+	label := "closure"
+	if g.loop > 0 || g.cloLoop {
+		label = "closure-in-loop"
+	}
+	return sig + " " + mk("ctx", label, body)
+}
+
+// closureType invents a closure type whose parameter names are fresh.
+func (g *gen) closureType() *mutate.Ty {
+	n := g.r.Intn(3)
+	ps := make([]mutate.Field, n)
+	for i := range ps {
+		ps[i] = mutate.Field{Name: g.fresh("p"), T: g.ty(1)}
+	}
+	ret := mutate.Null
+	if g.r.Chance(3, 4) {
+		ret = g.ty(1)
+	}
+	return mutate.FnOf(ret, ps...)
+}
+
+// ---------------------------------------------------------------------------------------------
+// Statements
+// ---------------------------------------------------------------------------------------------
+
+// pt emits a statement insertion point for the current position.
+func (g *gen) pt() string {
+	flag := "-"
+	if g.loop > 0 {
+		flag = "L"
+	}
+	p := "«pt:" + flag + ":" + g.ret.String() + "»"
+	// Appendix A #7: after a closure literal the analyzer still checks `return` against the closure,
+	// and inside a closure created in a loop `break` is accepted: such points carry the poison tag.
+	if g.afterCl {
+		return mk("tag", TagClosureCtx, mk("ctx", "after-closure", p))
+	}
+	if g.clo > 0 && g.cloLoop && g.loop == 0 {
+		return mk("tag", TagClosureCtx, p) // the enclosing ctx label already says closure-in-loop
+	}
+	return p
+}
+
+func (g *gen) retValue(e string) string {
+	s := mk("ret", g.ret.String(), e)
+	if g.afterCl {
+		return mk("tag", TagClosureCtx, mk("ctx", "after-closure", s))
+	}
+	return s
+}
+
+// body emits `{ stmts tail }` for the current function/closure return type.
+func (g *gen) body(n int) string {
+	var sb strings.Builder
+	sb.WriteString("{\n")
+	sb.WriteString(g.pt() + "\n")
+	g.stmts(&sb, n, 2)
+	if g.ret.K == mutate.KNull {
+		sb.WriteString(g.pt() + "\n")
+	} else if g.r.Chance(1, 4) && (!g.afterCl || g.feat.returnAfterCl) {
+		if g.afterCl {
+			g.tags[TagClosureCtx] = true
+		}
+		sb.WriteString("return " + g.retValue(g.argExpr(g.ret, 2)) + ";\n")
+	} else {
+		sb.WriteString(mk("tail", g.ret.String(), g.expr(g.ret, 2)) + "\n")
+	}
+	sb.WriteString("}")
+	return sb.String()
+}
+
+// block emits a null-typed block of statements (own scope).
+func (g *gen) block(n, d int) string {
+	var sb strings.Builder
+	g.push()
+	sb.WriteString("{\n" + g.pt() + "\n")
+	g.stmts(&sb, n, d)
+	g.pop()
+	sb.WriteString("}")
+	return sb.String()
+}
+
+func (g *gen) assignable() []gvar {
+	var out []gvar
+	for i := len(g.scopes) - 1; i >= 0; i-- {
+		for _, v := range g.scopes[i] {
+			if v.t.K != mutate.KFn && !strings.HasPrefix(v.name, "e") && !strings.HasPrefix(v.name, "it") {
+				out = append(out, v)
+			}
+		}
+	}
+	out = append(out, g.globals...)
+	return out
+}
+
+func (g *gen) stmts(sb *strings.Builder, n, d int) {
+	for i := 0; i < n; i++ {
+		if g.budget <= 0 {
+			return
+		}
+		last := i == n-1
+		switch k := g.r.Intn(20); {
+		case k < 5: // inferred let
+			t := g.ty(2)
+			g.nLet++
+			name := fmt.Sprintf("t%d", g.nLet)
+			fmt.Fprintf(sb, "let %s = %s;\n", name, mk("ty", t.String(), g.expr(t, 3)))
+			g.declare(gvar{name, t})
+		case k < 8: // annotated let
+			t := g.ty(2)
+			g.nLet++
+			name := fmt.Sprintf("t%d", g.nLet)
+			init := ""
+			switch {
+			case t.K == mutate.KList && g.r.Chance(1, 6):
+				init = "[]"
+			default:
+				init = mk("asg", t.String(), g.argExpr(t, 3))
+			}
+			fmt.Fprintf(sb, "let %s: %s = %s;\n", name, g.tySrc(t), init)
+			g.declare(gvar{name, t})
+		case k < 10: // assignment
+			vs := g.assignable()
+			if len(vs) == 0 {
+				continue
+			}
+			v := fw.Pick(g.r, vs)
+			g.assign(sb, v)
+		case k == 10: // output
+			a := g.ty(1)
+			fmt.Fprintf(sb, "println(%s, %s);\n", g.expr(a, 2), g.expr(tStr, 1))
+		case k == 11: // call statement
+			if len(g.fns) > 0 {
+				fmt.Fprintf(sb, "%s;\n", g.call(fw.Pick(g.r, g.fns), 2))
+			}
+		case k == 12: // list mutation through a builtin member
+			ls := g.varsWhere(func(t *mutate.Ty) bool { return t.K == mutate.KList })
+			if len(ls) > 0 {
+				l := fw.Pick(g.r, ls)
+				m := []string{"push", "push_front"}[g.r.Intn(2)]
+				fmt.Fprintf(sb, "%s(%s);\n", g.member(g.useVar(l), m), mk("args", "1", mk("arg", l.t.Elem.String(), g.expr(l.t.Elem, 2))))
+			}
+		case k == 13 && d > 0: // if statement
+			s := "if " + mk("cond", "", g.expr(tBool, 2)) + " " + g.block(1+g.r.Intn(2), d-1)
+			if g.r.Bool() {
+				s += " else " + g.block(1+g.r.Intn(2), d-1)
+			}
+			sb.WriteString(s + ";\n")
+		case k == 14 && d > 0: // while
+			g.loop++
+			s := "while " + mk("cond", "", g.expr(tBool, 2)) + " " + g.loopBlock(d-1)
+			g.loop--
+			sb.WriteString(s + "\n")
+		case k == 15 && d > 0: // for
+			var it string
+			var et *mutate.Ty
+			switch g.r.Intn(3) {
+			case 0:
+				it, et = g.expr(mutate.Range, 1), tInt
+			case 1:
+				it, et = g.expr(tStr, 1), tStr
+			default:
+				et = g.ty(1)
+				it = g.expr(mutate.ListOf(et), 2)
+			}
+			name := g.fresh("it")
+			g.loop++
+			g.push()
+			g.declare(gvar{name, et})
+			s := "for " + name + " in " + mk("iter", "", it) + " " + g.loopBlock(d-1)
+			g.pop()
+			g.loop--
+			sb.WriteString(s + "\n")
+		case k == 16 && d > 0: // loop
+			g.loop++
+			s := "loop " + g.loopBlock(d-1)
+			g.loop--
+			sb.WriteString(s + "\n")
+		case k == 17 && d > 0: // match statement
+			s := "match " + g.expr(tInt, 2) + " {\n0 => " + g.block(1, d-1) + "\n1 | 2 => " + g.block(1, d-1) + "\n"
+			if g.r.Bool() {
+				s += "_ => " + g.block(1, d-1) + "\n"
+			}
+			sb.WriteString(s + "};\n")
+		case k == 18 && g.feat.closures && g.clo < 2: // closure definition and use
+			ct := g.closureType()
+			g.nLet++
+			name := fmt.Sprintf("t%d", g.nLet)
+			lit := g.closure(ct)
+			fmt.Fprintf(sb, "let %s = %s;\n", name, mk("ty", ct.String(), lit))
+			g.declare(gvar{name, ct})
+		case k == 19 && last && d > 0: // early exit as the last statement of the block
+			g.exit(sb)
+		}
+	}
+}
+
+// loopBlock is a block inside a loop; it always contains a reachable break.
+func (g *gen) loopBlock(d int) string {
+	var sb strings.Builder
+	g.push()
+	sb.WriteString("{\n" + g.pt() + "\n")
+	g.stmts(&sb, 1+g.r.Intn(2), d)
+	sb.WriteString("if " + mk("cond", "", g.expr(tBool, 1)) + " {\n" + g.pt() + "\n")
+	if g.r.Chance(1, 3) {
+		sb.WriteString("continue;\n")
+	} else {
+		sb.WriteString("break;\n")
+	}
+	sb.WriteString("};\nbreak;\n")
+	g.pop()
+	sb.WriteString("}")
+	return sb.String()
+}
+
+// exit emits a conditional return.
+func (g *gen) exit(sb *strings.Builder) {
+	if g.afterCl && !g.feat.returnAfterCl {
+		return
+	}
+	if g.afterCl {
+		g.tags[TagClosureCtx] = true
+	}
+	sb.WriteString("if " + mk("cond", "", g.expr(tBool, 2)) + " {\n" + g.pt() + "\n")
+	if g.ret.K == mutate.KNull {
+		sb.WriteString("return;\n")
+	} else {
+		sb.WriteString("return " + g.retValue(g.argExpr(g.ret, 2)) + ";\n")
+	}
+	sb.WriteString("};\n")
+}
+
+func (g *gen) assign(sb *strings.Builder, v gvar) {
+	t := v.t
+	target := g.useVar(v)
+	// descend into a field or an element sometimes
+	for hops := 0; hops < 2; hops++ {
+		if t.K == mutate.KObj && g.r.Bool() {
+			f := t.Fields[g.r.Intn(len(t.Fields))]
+			target += "." + mk("id", "field", f.Name)
+			t = f.T
+		} else if t.K == mutate.KList && g.r.Bool() {
+			target += "[" + mk("idx", "int", g.expr(tInt, 1)) + "]"
+			t = t.Elem
+		} else {
+			break
+		}
+	}
+	if t.K == mutate.KFn {
+		return
+	}
+	op := "="
+	switch t.K {
+	case mutate.KInt:
+		op = fw.Pick(g.r, []string{"=", "+=", "-=", "*=", "/=", "%=", "**=", "<<=", ">>=", "|=", "&=", "^="})
+	case mutate.KFloat:
+		op = fw.Pick(g.r, []string{"=", "+=", "-=", "*=", "/=", "**="})
+	case mutate.KBool:
+		op = fw.Pick(g.r, []string{"=", "|=", "&=", "^="})
+	case mutate.KStr:
+		op = fw.Pick(g.r, []string{"=", "+="})
+	}
+	val := g.expr(t, 2)
+	if op == "=" {
+		val = g.argExpr(t, 2)
+	}
+	fmt.Fprintf(sb, "%s %s %s;\n", target, mk("aop", t.String(), op), mk("asg", t.String(), val))
+}
+
+// ---------------------------------------------------------------------------------------------
+// Programs
+// ---------------------------------------------------------------------------------------------
+
+// constExpr emits a constant expression of type t (global initialiser).
+func (g *gen) constExpr(t *mutate.Ty, d int) string {
+	switch t.K {
+	case mutate.KInt:
+		if d > 0 && g.r.Chance(1, 3) {
+			return "(" + g.constExpr(tInt, d-1) + " " + fw.Pick(g.r, []string{"+", "-", "*"}) + " " + g.constExpr(tInt, d-1) + ")"
+		}
+	case mutate.KList:
+		n := 1 + g.r.Intn(3)
+		parts := make([]string, n)
+		for i := range parts {
+			parts[i] = g.constExpr(t.Elem, d-1)
+		}
+		return "[" + strings.Join(parts, ", ") + "]"
+	case mutate.KOpt:
+		return "?" + g.constExpr(t.Elem, d-1)
+	case mutate.KObj:
+		parts := make([]string, len(t.Fields))
+		for i, f := range t.Fields {
+			parts[i] = f.Name + ": " + g.constExpr(f.T, d-1)
+		}
+		return "new { " + strings.Join(parts, ", ") + " }"
+	}
+	return g.lit(t, 0)
+}
+
+func (g *gen) function(sb *strings.Builder, f *gfn, pub bool) {
+	g.scopes = nil
+	g.push()
+	g.ret, g.loop, g.clo, g.cloLoop, g.afterCl = f.ret, 0, 0, false, false
+	g.budget = 70
+	params := make([]string, len(f.params))
+	for i, p := range f.params {
+		params[i] = p.name + ": " + g.tySrc(p.t)
+		if i == 0 {
+			params[i] = mk("dup", "param", params[i])
+		}
+		g.declare(p)
+	}
+	head := "fn "
+	if pub {
+		head = "pub fn "
+	}
+	sig := head + f.name + "(" + strings.Join(params, ", ") + ")"
+	if f.ret.K != mutate.KNull {
+		sig += " -> " + g.tySrc(f.ret)
+	}
+	def := sig + " " + g.body(2+g.r.Intn(4))
+	sb.WriteString(mk("dup", "fn", def) + "\n\n")
+	g.pop()
+}
+
+func (g *gen) signature(name string) *gfn {
+	f := &gfn{name: name, ret: mutate.Null}
+	n := g.r.Intn(4)
+	for i := 0; i < n; i++ {
+		t := g.ty(2)
+		if g.feat.fnTypeParams && g.r.Chance(1, 3) {
+			t = mutate.FnOf(g.ty(0), mutate.Field{Name: g.fresh("q"), T: g.ty(0)})
+			g.tags[TagFnTypeParams] = true
+		}
+		f.params = append(f.params, gvar{g.fresh("a"), t})
+	}
+	if g.r.Chance(3, 4) {
+		f.ret = g.ty(2)
+	}
+	return f
+}
+
+// GenProgram generates one marked program from a seed.
+func GenProgram(seed uint64, feat genFeat) (mods map[string]string, tags []string) {
+	g := &gen{r: fw.NewRng(seed), feat: feat, tags: map[string]bool{}}
+	mods = map[string]string{}
+	var sb strings.Builder
+
+	// optional library module with public functions
+	var libFns []*gfn
+	if feat.libModule && g.r.Chance(1, 4) {
+		var lb strings.Builder
+		k := 1 + g.r.Intn(2)
+		for i := 0; i < k; i++ {
+			libFns = append(libFns, g.signature(fmt.Sprintf("lib%d", i)))
+		}
+		g.fns = libFns
+		for _, f := range libFns {
+			g.function(&lb, f, true)
+		}
+		lb.WriteString("fn main() {}\n")
+		mods["lib"] = lb.String()
+		names := make([]string, len(libFns))
+		for i, f := range libFns {
+			names[i] = mk("id", "import", f.name)
+		}
+		sb.WriteString("import { " + strings.Join(names, ", ") + " } from " + mk("id", "module", "lib") + ";\n\n")
+	}
+
+	// aliases
+	for i, k := 0, g.r.Intn(3); i < k; i++ {
+		t := g.ty(2)
+		if t.K == mutate.KInt && g.r.Bool() {
+			t = mutate.ObjOf(mutate.Field{Name: "id", T: tInt}, mutate.Field{Name: "name", T: tStr})
+		}
+		name := fmt.Sprintf("A%d", i)
+		g.aliases = append(g.aliases, gvar{name, t})
+		sb.WriteString(mk("dup", "type", "type "+name+" = "+t.Source()+";") + "\n")
+	}
+	// globals
+	for i, k := 0, g.r.Intn(4); i < k; i++ {
+		t := g.ty(1)
+		name := fmt.Sprintf("g%d", i)
+		if g.r.Chance(1, 3) {
+			sb.WriteString(mk("dup", "global", "let "+name+": "+g.tySrc(t)+" = "+mk("gin", "a:"+t.String(), g.constExpr(t, 2))+";") + "\n")
+		} else {
+			sb.WriteString(mk("dup", "global", "let "+name+" = "+mk("gin", t.String(), g.constExpr(t, 2))+";") + "\n")
+		}
+		g.globals = append(g.globals, gvar{name, t})
+	}
+	sb.WriteString("\n")
+	// functions
+	nf := 1 + g.r.Intn(3)
+	own := make([]*gfn, nf)
+	for i := range own {
+		own[i] = g.signature(fmt.Sprintf("f%d", i))
+	}
+	g.fns = append(append([]*gfn{}, libFns...), own...)
+	for _, f := range own {
+		g.function(&sb, f, false)
+	}
+	// main
+	g.scopes = nil
+	g.push()
+	g.ret, g.loop, g.clo, g.cloLoop, g.afterCl = mutate.Null, 0, 0, false, false
+	g.budget = 60
+	sb.WriteString("fn main() {\n" + g.pt() + "\n")
+	for _, f := range g.fns {
+		if f.ret.K == mutate.KNull {
+			sb.WriteString(g.call(f, 2) + ";\n")
+		} else {
+			g.nLet++
+			name := fmt.Sprintf("t%d", g.nLet)
+			sb.WriteString("let " + name + " = " + mk("ty", f.ret.String(), g.call(f, 2)) + ";\n")
+			g.declare(gvar{name, f.ret})
+		}
+	}
+	if g.feat.fnLists && len(own) > 0 {
+		f := own[0]
+		g.tags[TagFnList] = true
+		sb.WriteString("let fl = [" + f.name + ", " + f.name + "];\nprintln(fl.len());\n")
+	}
+	g.stmts(&sb, 2+g.r.Intn(3), 2)
+	sb.WriteString("}\n")
+	g.pop()
+	mods["main"] = sb.String()
+	for t := range g.tags {
+		tags = append(tags, t)
+	}
+	sortStrings(tags)
+	return mods, tags
+}
+
+func sortStrings(s []string) {
+	for i := 1; i < len(s); i++ {
+		for j := i; j > 0 && s[j] < s[j-1]; j-- {
+			s[j], s[j-1] = s[j-1], s[j]
+		}
+	}
+}
+
+// Known findings that poison generator features.
+const (
+	KFClosureCtx   = "KF-c03-closure-context"
+	KFFnTypeParams = "KF-c03-fn-type-params"
+	KFFnList       = "KF-c03-fn-list"
+	KFMatchDiverge = "KF-c03-match-diverge"
+	KFLoopNever    = "KF-c03-loop-never"
+)
+
+func genCases(tier string, seed uint64) []fw.Case {
+	n := 400
+	if tier == "thorough" {
+		n = 6000
+	}
+	r := fw.NewRng(seed ^ 0xC03)
+	var out []fw.Case
+	emit := func(id string, ps uint64, feat genFeat, forced string) {
+		mods, tags := GenProgram(ps, feat)
+		if forced != "" && !contains(tags, forced) {
+			return
+		}
+		parsed, err := mutate.Parse(mods)
+		if err != nil {
+			panic(fmt.Sprintf("c03: generator emitted bad markers (seed %d): %v", ps, err))
+		}
+		p := Payload{Name: id, Group: "gen", Mods: mods, Main: true, Construct: "gen"}
+		if len(tags) > 0 {
+			// the base program itself uses a construct a finding poisons: one case carrying the tags
+			p.Construct = "gen-" + strings.Join(tags, "+")
+			out = append(out, fw.MkCase(id, "gen", p, tags...))
+			return
+		}
+		pm := p
+		pm.SkipTags = true
+		out = append(out, fw.MkCase(id, "gen", pm))
+		tagSet := map[string]bool{}
+		for _, s := range parsed.Sites {
+			for _, t := range s.Tags {
+				tagSet[t] = true
+			}
+		}
+		for _, t := range mutate.SortedKeys(boolCount(tagSet)) {
+			pt := p
+			pt.Only = t
+			pt.NoTypes = true
+			out = append(out, fw.MkCase(id+"-tag-"+t, "gen", pt, t))
+		}
+	}
+	// main workload: poisoned features are switched off while their finding is open
+	main := genFeat{
+		closures:      true,
+		libModule:     true,
+		returnAfterCl: !fw.KFOpen(KFClosureCtx),
+		fnTypeParams:  !fw.KFOpen(KFFnTypeParams),
+		fnLists:       false,
+	}
+	for i := 0; i < n; i++ {
+		ps := r.Next()
+		f := main
+		// the whole-program poisons are rare even when allowed, so that most programs exercise mutants
+		if f.returnAfterCl && !r.Chance(1, 8) {
+			f.returnAfterCl = false
+		}
+		if f.fnTypeParams && !r.Chance(1, 10) {
+			f.fnTypeParams = false
+		}
+		if !fw.KFOpen(KFFnList) && r.Chance(1, 25) {
+			f.fnLists = true
+		}
+		emit(fmt.Sprintf("c03-gen-%d", i), ps, f, "")
+	}
+	// poisoned workloads: a few dozen programs that do use the construct of an open finding
+	type poison struct {
+		kf, tag string
+		feat    func(*genFeat)
+	}
+	for _, po := range []poison{
+		{KFClosureCtx, TagClosureCtx, func(f *genFeat) { f.returnAfterCl = true }},
+		{KFFnTypeParams, TagFnTypeParams, func(f *genFeat) { f.fnTypeParams = true }},
+		{KFFnList, TagFnList, func(f *genFeat) { f.fnLists = true }},
+	} {
+		if !fw.KFOpen(po.kf) {
+			continue
+		}
+		made := 0
+		for i := 0; made < 30 && i < 400; i++ {
+			f := genFeat{closures: true, libModule: false}
+			po.feat(&f)
+			before := len(out)
+			emit(fmt.Sprintf("c03-genp-%s-%d", po.tag, i), r.Next(), f, po.tag)
+			if len(out) > before {
+				made++
+			}
+		}
+	}
+	return out
+}
+
+func contains(xs []string, x string) bool {
+	for _, y := range xs {
+		if y == x {
+			return true
+		}
+	}
+	return false
+}
+
+func boolCount(m map[string]bool) map[string]int {
+	out := map[string]int{}
+	for k := range m {
+		out[k] = 1
+	}
+	return out
+}
